@@ -214,5 +214,10 @@ def eof (now : Nat) (c : Conn) (s : σ) : Conn × σ × Bytes :=
       (Conn.dead, r.1, r.2.1)
     | _ => (Conn.dead, s, [])
 
+/-- the receive timeout elapses while `read_frame` is pending (`Client::handle`: `timeout(rx, read_frame())` → the client
+    is dropped): the connection ends in whatever state it is — idle, in the middle of a request, or in the middle of
+    discarding an oversized body (whose 'too large' answer is then never written) — and nothing is executed or written -/
+def idleTimeout (c : Conn) : Conn := if c.closed then c else Conn.dead
+
 end
 end Memc
